@@ -9,6 +9,16 @@
 // DAG classes and the observer call) are reached the same way.
 //
 // After every operation the harness prints   <result> ; <full canonical state>.
+//
+// Object identity.  Every observer slot k has its own pool of node / edge objects, named by a
+// label 0..POOL-1 (`o.link k a b x` hands the pool-k objects a, b, x to observer k).  Wherever an
+// object is reported - in the dump of the eight private maps and in every query answer - the
+// harness prints the label of the object *actually stored / returned*, compared by pointer with
+// the pools:  `l`  = the pool-k object with label l (k = the observer being dumped / queried),
+// `l@j` = the object with label l of another observer's pool j,  `l@?` = an object with label l
+// that is in no pool.  After a copy (copy constructor, clone(), converting constructor,
+// operator=) the pool of the target slot is rebuilt from the keys of the copy's object->id maps,
+// but never with an object that belongs to another pool: an aliased object shows as `l@j`.
 // Operations whose C++ behaviour would be undefined (dereferencing find()==end())
 // are NOT executed: the harness evaluates the precondition on the raw state and
 // answers `ub` (the model has a distinct `ub` outcome; both must agree on when).
@@ -54,9 +64,16 @@ public:
 using namespace bpp; using namespace verif;
 typedef AssociationGraphImplObserver<PeekTag, PeekTag, PeekTag> Peek;
 
-struct NObj { int label; explicit NObj(int l) : label(l) {} };
-struct EObj { int label; explicit EObj(int l) : label(l) {} };
+struct NObj2; struct EObj2;
+struct NObj { int label; explicit NObj(int l) : label(l) {} NObj(const NObj&) = default; explicit NObj(const NObj2& o); };
+struct EObj { int label; explicit EObj(int l) : label(l) {} EObj(const EObj&) = default; explicit EObj(const EObj2& o); };
+// a second pair of object types, for the converting copy constructor <N2, E2>
+struct NObj2 { int label; explicit NObj2(const NObj& o) : label(o.label) {} };
+struct EObj2 { int label; explicit EObj2(const EObj& o) : label(o.label) {} };
+NObj::NObj(const NObj2& o) : label(o.label) {}
+EObj::EObj(const EObj2& o) : label(o.label) {}
 typedef AssociationGlobalGraphObserver<NObj, EObj> Obs;
+typedef AssociationGlobalGraphObserver<NObj2, EObj2> Obs2;
 typedef std::shared_ptr<NObj> NP;
 typedef std::shared_ptr<EObj> EP;
 
@@ -82,26 +99,32 @@ struct M {
   static std::string row(const std::map<unsigned, unsigned>& m) {
     std::string s; for (auto& kv : m) s += U(kv.first) + ":" + U(kv.second) + " "; return s;
   }
-  template<class P> static std::string lab(const P& p) { return p ? U((unsigned long)p->label) : std::string("-"); }
-  template<class Vec> static std::string vec(const Vec& v) { std::string s; for (auto& p : v) s += lab(p) + " "; return s; }
-  template<class Map> static std::string mp(const Map& m) {
-    // keyed by pointer: print sorted by (label, value); null key printed as '-'
-    std::vector<std::pair<long, unsigned>> v;
-    for (auto& kv : m) v.push_back(std::make_pair(kv.first ? (long)kv.first->label : -1L, kv.second));
+  // which pool owns the object (by pointer); -1 = none
+  int ownerOf(const NP& p) const { int l = p->label; if (l < 0 || l >= POOL) return -1; for (int j = 0; j < NOBS; ++j) if (np[j][l] == p) return j; return -1; }
+  int ownerOf(const EP& p) const { int l = p->label; if (l < 0 || l >= POOL) return -1; for (int j = 0; j < NOBS; ++j) if (ep[j][l] == p) return j; return -1; }
+  // the label of the object actually held, seen from observer k: `l`, `l@j`, `l@?`, `-` (null)
+  template<class P> std::string lab(int k, const P& p) const {
+    if (!p) return "-";
+    int j = ownerOf(p);
+    std::string s = U((unsigned long)p->label);
+    if (j == k) return s;
+    return s + "@" + (j < 0 ? std::string("?") : U((unsigned long)j));
+  }
+  template<class Vec> std::string vec(int k, const Vec& v) const { std::string s; for (auto& p : v) s += lab(k, p) + " "; return s; }
+  template<class Map> std::string mp(int k, const Map& m) const {
+    // keyed by pointer: print sorted by (label, owner, value)
+    std::vector<std::pair<std::pair<long, std::string>, unsigned>> v;
+    for (auto& kv : m) v.push_back(std::make_pair(std::make_pair(kv.first ? (long)kv.first->label : -1L, lab(k, kv.first)), kv.second));
     std::sort(v.begin(), v.end());
-    std::string s; for (auto& x : v) s += (x.first < 0 ? std::string("-") : U((unsigned long)x.first)) + ":" + U(x.second) + " ";
+    std::string s; for (auto& x : v) s += x.first.second + ":" + U(x.second) + " ";
     return s;
   }
   std::string state() {
-    GlobalGraph& G = *g;
-    std::string s = std::string("G ") + (Peek::directed(G) ? "D " : "U ") + U(Peek::hN(G)) + " " + U(Peek::hE(G)) + " " + U(Peek::root(G)) + " ";
-    for (auto& r : Peek::nodes(G)) s += "N " + U(r.first) + " O " + row(r.second.first) + "I " + row(r.second.second);
-    s += "E ";
-    for (auto& e : Peek::edges(G)) s += U(e.first) + ":" + U(e.second.first) + ":" + U(e.second.second) + " ";
+    std::string s = dump(*g);
     for (int k = 0; k < NOBS; ++k) if (obs[k]) {
       Obs& o = *obs[k];
-      s += "X " + U(k) + " gN " + vec(Peek::gN(o)) + "gE " + vec(Peek::gE(o)) + "Ng " + mp(Peek::Ng(o)) + "Eg " + mp(Peek::Eg(o))
-        + "iN " + vec(Peek::iN(o)) + "iE " + vec(Peek::iE(o)) + "Ni " + mp(Peek::Ni(o)) + "Ei " + mp(Peek::Ei(o));
+      s += "X " + U(k) + " gN " + vec(k, Peek::gN(o)) + "gE " + vec(k, Peek::gE(o)) + "Ng " + mp(k, Peek::Ng(o)) + "Eg " + mp(k, Peek::Eg(o))
+        + "iN " + vec(k, Peek::iN(o)) + "iE " + vec(k, Peek::iE(o)) + "Ni " + mp(k, Peek::Ni(o)) + "Ei " + mp(k, Peek::Ei(o));
     }
     return s;
   }
@@ -120,21 +143,63 @@ struct M {
     try { return f(); } catch (Exception&) { return "exc:bpp "; } catch (std::exception&) { return "exc:std "; }
   }
 
+  // a mutator of GlobalGraph, on graph G; t[off] is the operation.  "" = not a mutator.
+  std::string dump(GlobalGraph& G) {
+    std::string s = std::string("G ") + (Peek::directed(G) ? "D " : "U ") + U(Peek::hN(G)) + " " + U(Peek::hE(G)) + " " + U(Peek::root(G)) + " ";
+    for (auto& r : Peek::nodes(G)) s += "N " + U(r.first) + " O " + row(r.second.first) + "I " + row(r.second.second);
+    s += "E ";
+    for (auto& e : Peek::edges(G)) s += U(e.first) + ":" + U(e.second.first) + ":" + U(e.second.second) + " ";
+    return s;
+  }
+  static std::string mutate(GlobalGraph& G, const Toks& t, size_t off) {
+    const std::string& o = t[off];
+    auto a = [&](size_t i) { return (unsigned)toU(t[off + i]); };
+    if (o == "createNode") return U(G.createNode());
+    if (o == "createNodeFromNode") return U(G.createNodeFromNode(a(1)));
+    if (o == "createNodeOnEdge") return U(G.createNodeOnEdge(a(1)));
+    if (o == "createNodeFromEdge") return U(G.createNodeFromEdge(a(1)));
+    if (o == "link") return U(Peek::link(G, a(1), a(2)));
+    if (o == "linkE") { Peek::linkE(G, a(1), a(2), a(3)); return "ok"; }
+    if (o == "unlink") return list(Peek::unlink(G, a(1), a(2)));
+    if (o == "switchNodes") { Peek::switchNodes(G, a(1), a(2)); return "ok"; }
+    if (o == "deleteNode") { G.deleteNode(a(1)); return "ok"; }
+    if (o == "makeDirected") { G.makeDirected(); return "ok"; }
+    if (o == "makeUndirected") { G.makeUndirected(); return "ok"; }
+    if (o == "setRoot") { Peek::setRoot(G, a(1)); return "ok"; }
+    if (o == "orientate") { G.orientate(); return "ok"; }
+    return "";
+  }
+
   std::string graphOp(const Toks& t) {
     GlobalGraph& G = *g;
     const std::string& o = t[0];
-    if (o == "createNode") return U(G.createNode());
-    if (o == "createNodeFromNode") return U(G.createNodeFromNode(toU(t[1])));
-    if (o == "createNodeOnEdge") return U(G.createNodeOnEdge(toU(t[1])));
-    if (o == "createNodeFromEdge") return U(G.createNodeFromEdge(toU(t[1])));
-    if (o == "link") return U(Peek::link(G, toU(t[1]), toU(t[2])));
-    if (o == "linkE") { Peek::linkE(G, toU(t[1]), toU(t[2]), toU(t[3])); return "ok"; }
-    if (o == "unlink") return list(Peek::unlink(G, toU(t[1]), toU(t[2])));
-    if (o == "switchNodes") { Peek::switchNodes(G, toU(t[1]), toU(t[2])); return "ok"; }
-    if (o == "deleteNode") { G.deleteNode(toU(t[1])); return "ok"; }
-    if (o == "makeDirected") { G.makeDirected(); return "ok"; }
-    if (o == "makeUndirected") { G.makeUndirected(); return "ok"; }
-    if (o == "setRoot") { Peek::setRoot(G, toU(t[1])); return "ok"; }
+    { std::string r = mutate(G, t, 0); if (!r.empty()) return r; }
+    if (o == "gcopy") {
+      // a copy of the graph (copy constructor / operator= / clone()) is a graph of its own: a mutator
+      // called on the copy changes neither the original nor the observers of the original
+      std::unique_ptr<GlobalGraph> cp;
+      if (t[1] == "ctor") cp.reset(new GlobalGraph(G));
+      else if (t[1] == "clone") cp.reset(G.clone());
+      else { cp.reset(new GlobalGraph(!Peek::directed(G))); cp->createNode(); *cp = G; }
+      std::string r;
+      try { r = mutate(*cp, t, 2); } catch (Exception&) { r = "exc:bpp"; }
+      return r + " reg " + U(Peek::nObservers(*cp)) + " copy " + dump(*cp);
+    }
+    if (o == "gassign") {
+      // operator= ONTO the observed graph: its content is replaced by a path of n nodes of the other
+      // directedness; its observers stay registered and are told that everything they knew is gone
+      GlobalGraph H(!Peek::directed(G));
+      unsigned n = (unsigned)toU(t[1]);
+      for (unsigned i = 0; i < n; ++i) H.createNode();
+      for (unsigned i = 0; i + 1 < n; ++i) Peek::link(H, i, i + 1);
+      size_t reg = Peek::nObservers(G);
+      G = H;
+      G = *g;   // self-assignment changes nothing
+      return std::string("ok reg ") + U(Peek::nObservers(G) - reg);
+    }
+    // the notifications are public members: every observer forgets the named edges / nodes
+    if (o == "notifyE") { G.notifyDeletedEdges(std::vector<unsigned>{(unsigned)toU(t[1]), (unsigned)toU(t[2])}); return "ok"; }
+    if (o == "notifyN") { G.notifyDeletedNodes(std::vector<unsigned>{(unsigned)toU(t[1]), (unsigned)toU(t[2])}); return "ok"; }
     // ---- queries
     const GlobalGraph& C = G;
     if (o == "qn") {  // everything about one node
@@ -184,37 +249,107 @@ struct M {
   static int lbl(const std::string& s) { return s == "-" ? -1 : (int)toI(s); }
   NP N(int k, int l) { return l < 0 ? NP() : np[k][l]; }
   EP E(int k, int l) { return l < 0 ? EP() : ep[k][l]; }
-  template<class V> static std::string labs(const V& v) { std::string s; for (auto& p : v) s += lab(p) + " "; return s; }
-  template<class It> static std::string oiter(std::unique_ptr<It> it) {
-    std::string s; for (it->start(); !it->end(); it->next()) s += lab(**it) + " "; return s;
+  int curK = 0;   // the observer whose answers are being printed (labels are relative to its pool)
+  template<class P> std::string lab1(const P& p) const { return lab(curK, p); }
+  template<class V> std::string labs(const V& v) const { std::string s; for (auto& p : v) s += lab1(p) + " "; return s; }
+  template<class It> std::string oiter(std::unique_ptr<It> it) const {
+    std::string s; for (it->start(); !it->end(); it->next()) s += lab1(**it) + " "; return s;
   }
   // would a per-node iterator of observer o on object a dereference find()==end() ?
   bool staleGid(Obs& o, const NP& a) { auto& m = Peek::Ng(o); auto it = m.find(a); return it != m.end() && !hasN(it->second); }
 
+  // vector operator[] with an id / index beyond the size would be undefined behaviour in the copy loops
+  bool copyUndefined(Obs& src) {
+    for (auto& kv : Peek::Ng(src)) if (kv.second >= Peek::gN(src).size()) return true;
+    for (auto& kv : Peek::Eg(src)) if (kv.second >= Peek::gE(src).size()) return true;
+    for (auto& kv : Peek::Ni(src)) if (Peek::Ng(src).count(kv.first) && kv.second >= Peek::iN(src).size()) return true;
+    for (auto& kv : Peek::Ei(src)) if (Peek::Eg(src).count(kv.first) && kv.second >= Peek::iE(src).size()) return true;
+    return false;
+  }
+  void freshPool(int k) { for (int i = 0; i < POOL; ++i) { np[k][i].reset(new NObj(i)); ep[k][i].reset(new EObj(i)); } }
+  // observer k has just been (re)built as a copy of observer j: it owns new objects.  Rebuild the pool
+  // of slot k from the keys of its object->id maps - but an object that already belongs to a pool
+  // (the source's, say) is not adopted: it will be reported as `l@j`.
+  std::string adopt(int j, int k) {
+    bool indep = true, shared = obs[k]->getGraph().get() == g.get();
+    freshPool(k);
+    for (auto& kv : Peek::Ng(*obs[k])) { if (!kv.first) continue; int l = kv.first->label; if (kv.first == np[j][l]) indep = false; if (ownerOf(kv.first) < 0 && l >= 0 && l < POOL) np[k][l] = kv.first; }
+    for (auto& kv : Peek::Eg(*obs[k])) { if (!kv.first) continue; int l = kv.first->label; if (kv.first == ep[j][l]) indep = false; if (ownerOf(kv.first) < 0 && l >= 0 && l < POOL) ep[k][l] = kv.first; }
+    return std::string("ok indep ") + B(indep) + " shared " + B(shared) + " reg " + U(Peek::nObservers(*g));
+  }
+
   std::string obsOp(const Toks& t) {
     const std::string& op = t[0];
     int k = (int)toI(t[1]);
-    if (op == "o.copy") {
+    if (op == "o.copy" || op == "o.clone" || op == "o.copyvia") {
       int j = k; k = (int)toI(t[2]);
-      if (!obs[j] || j == k) return "ub";
-      // vector operator[] with an id beyond the size would be undefined behaviour
-      for (auto& kv : Peek::Ng(*obs[j])) if (kv.second >= Peek::gN(*obs[j]).size()) return "ub";
-      for (auto& kv : Peek::Eg(*obs[j])) if (kv.second >= Peek::gE(*obs[j]).size()) return "ub";
-      for (auto& kv : Peek::Ni(*obs[j])) if (Peek::Ng(*obs[j]).count(kv.first) && kv.second >= Peek::iN(*obs[j]).size()) return "ub";
-      for (auto& kv : Peek::Ei(*obs[j])) if (Peek::Eg(*obs[j]).count(kv.first) && kv.second >= Peek::iE(*obs[j]).size()) return "ub";
+      if (j < 0 || j >= NOBS || k < 0 || k >= NOBS || !obs[j] || j == k) return "ub";
+      if (copyUndefined(*obs[j])) return "ub";
       obs[k].reset();
-      obs[k].reset(new Obs(*obs[j]));
-      // the copy owns new objects: rebuild the pool of observer k by label, and check independence
-      bool indep = true, shared = obs[k]->getGraph().get() == g.get();
-      for (int i = 0; i < POOL; ++i) { np[k][i].reset(new NObj(i)); ep[k][i].reset(new EObj(i)); }
-      for (auto& kv : Peek::Ng(*obs[k])) { int l = kv.first->label; if (kv.first == np[j][l]) indep = false; np[k][l] = kv.first; }
-      for (auto& kv : Peek::Eg(*obs[k])) { int l = kv.first->label; if (kv.first == ep[j][l]) indep = false; ep[k][l] = kv.first; }
-      return std::string("ok indep ") + B(indep) + " shared " + B(shared);
+      if (op == "o.copy") obs[k].reset(new Obs(*obs[j]));
+      else if (op == "o.clone") obs[k].reset(obs[j]->clone());
+      else { Obs2 via(*obs[j]); obs[k].reset(new Obs(via)); }   // the converting constructor, there and back
+      return adopt(j, k);
+    }
+    if (op == "o.assign") {
+      int j = k; k = (int)toI(t[2]);
+      if (j < 0 || j >= NOBS || k < 0 || k >= NOBS || !obs[j] || !obs[k]) return "ub";
+      if (j != k && copyUndefined(*obs[j])) return "ub";
+      *obs[k] = *obs[j];
+      if (j == k) return std::string("ok self reg ") + U(Peek::nObservers(*g));
+      return adopt(j, k);
+    }
+    if (op == "o.assignx") {
+      // operator= into an observer of ANOTHER graph: T is built on a graph of its own (two nodes, an
+      // indexed edge object), then T = *obs[j].  T must leave its former graph, observe g, and hold
+      // fresh objects with the relations of obs[j]; destroying T must unregister it from g.
+      int j = k;
+      if (j < 0 || j >= NOBS || !obs[j]) return "ub";
+      if (copyUndefined(*obs[j])) return "ub";
+      size_t before = Peek::nObservers(*g);
+      std::string r;
+      {
+        Obs T(!Peek::directed(*g));
+        std::shared_ptr<GlobalGraph> old = T.getGraph();
+        NP a(new NObj(0)), b(new NObj(1)); EP e(new EObj(2));
+        T.createNode(a); T.createNode(a, b, e); T.addNodeIndex(b); T.setEdgeIndex(e, 4);
+        T = *obs[j];
+        Obs& S = *obs[j];
+        bool same = Peek::gN(T).size() == Peek::gN(S).size() && Peek::gE(T).size() == Peek::gE(S).size()
+          && Peek::iN(T).size() == Peek::iN(S).size() && Peek::iE(T).size() == Peek::iE(S).size()
+          && Peek::Ng(T).size() == Peek::Ng(S).size() && Peek::Eg(T).size() == Peek::Eg(S).size();
+        bool indep = true;
+        auto cmpV = [&](const std::vector<NP>& x, const std::vector<NP>& y) { for (size_t i = 0; i < x.size() && i < y.size(); ++i) { if (bool(x[i]) != bool(y[i])) same = false; else if (x[i]) { if (x[i]->label != y[i]->label) same = false; if (x[i] == y[i]) indep = false; } } };
+        auto cmpE = [&](const std::vector<EP>& x, const std::vector<EP>& y) { for (size_t i = 0; i < x.size() && i < y.size(); ++i) { if (bool(x[i]) != bool(y[i])) same = false; else if (x[i]) { if (x[i]->label != y[i]->label) same = false; if (x[i] == y[i]) indep = false; } } };
+        cmpV(Peek::gN(T), Peek::gN(S)); cmpE(Peek::gE(T), Peek::gE(S));
+        // index -> object restricted to registered objects
+        for (size_t i = 0; i < Peek::iN(T).size() && i < Peek::iN(S).size(); ++i) { NP y = Peek::iN(S)[i]; if (y && !Peek::Ng(S).count(y)) y.reset(); NP x = Peek::iN(T)[i]; if (bool(x) != bool(y) || (x && (x->label != y->label || x == y))) same = false; }
+        for (size_t i = 0; i < Peek::iE(T).size() && i < Peek::iE(S).size(); ++i) { EP y = Peek::iE(S)[i]; if (y && !Peek::Eg(S).count(y)) y.reset(); EP x = Peek::iE(T)[i]; if (bool(x) != bool(y) || (x && (x->label != y->label || x == y))) same = false; }
+        // the maps of T are inverse of its vectors (by pointer)
+        for (auto& kv : Peek::Ng(T)) if (kv.second >= Peek::gN(T).size() || Peek::gN(T)[kv.second] != kv.first) same = false;
+        for (auto& kv : Peek::Eg(T)) if (kv.second >= Peek::gE(T).size() || Peek::gE(T)[kv.second] != kv.first) same = false;
+        for (auto& kv : Peek::Ni(T)) if (kv.second >= Peek::iN(T).size() || Peek::iN(T)[kv.second] != kv.first || !Peek::Ng(T).count(kv.first)) same = false;
+        for (auto& kv : Peek::Ei(T)) if (kv.second >= Peek::iE(T).size() || Peek::iE(T)[kv.second] != kv.first || !Peek::Eg(T).count(kv.first)) same = false;
+        size_t nIdxN = 0, nIdxE = 0;
+        for (auto& p : Peek::iN(T)) if (p) ++nIdxN;
+        for (auto& p : Peek::iE(T)) if (p) ++nIdxE;
+        if (nIdxN != Peek::Ni(T).size() || nIdxE != Peek::Ei(T).size()) same = false;
+        r = std::string("ok shared ") + B(T.getGraph().get() == g.get()) + " oldreg " + U(Peek::nObservers(*old))
+          + " reg " + U(Peek::nObservers(*g) - before) + " same " + B(same) + " indep " + B(indep);
+      }
+      return r + " after " + U(Peek::nObservers(*g) - before);
+    }
+    if (op == "o.attach") {   // a new observer constructed on the existing graph
+      if (k <= 0 || k >= NOBS || obs[k]) return "ub";
+      obs[k].reset(new Obs(g));
+      freshPool(k);
+      return std::string("ok reg ") + U(Peek::nObservers(*g));
     }
     if (k < 0 || k >= NOBS || !obs[k]) return "ub";
     Obs& o = *obs[k];
     const Obs& c = o;
-    if (op == "o.drop") { if (k == 0) return "ub"; obs[k].reset(); return "ok"; }
+    curK = k;
+    if (op == "o.drop") { if (k == 0) return "ub"; obs[k].reset(); return std::string("ok reg ") + U(Peek::nObservers(*g)); }
     if (op == "o.createNode") { o.createNode(N(k, lbl(t[2]))); return "ok"; }
     if (op == "o.createNodeFrom") { o.createNode(N(k, lbl(t[2])), N(k, lbl(t[3])), E(k, lbl(t[4]))); return "ok"; }
     if (op == "o.link") { o.link(N(k, lbl(t[2])), N(k, lbl(t[3])), E(k, lbl(t[4]))); return "ok"; }
@@ -229,6 +364,12 @@ struct M {
     if (op == "o.setEdgeIndex") return U(o.setEdgeIndex(E(k, lbl(t[2])), (unsigned)toU(t[3])));
     if (op == "o.addEdgeIndex") return U(o.addEdgeIndex(E(k, lbl(t[2]))));
     if (op == "o.setEdgeLinking") { o.setEdgeLinking(N(k, lbl(t[2])), N(k, lbl(t[3])), E(k, lbl(t[4]))); return "ok"; }
+    if (op == "o.setRoot") { o.setRoot(N(k, lbl(t[2]))); return "ok"; }
+    if (op == "o.rereg") {   // a second registration of the same observer must be refused
+      std::string r;
+      try { g->registerObserver(&o); r = "ok"; } catch (Exception&) { r = "exc:bpp"; }
+      return r + " reg " + U(Peek::nObservers(*g));
+    }
     // ---- queries
     if (op == "o.qn") {
       NP a = N(k, lbl(t[2]));
@@ -251,11 +392,20 @@ struct M {
       EP e = E(k, lbl(t[2]));
       return "has " + B(c.hasEdge(e)) + " gid " + q([&] { return U(c.getEdgeGraphid(e)) + " "; })
         + "idx " + B(c.hasEdgeIndex(e)) + " " + q([&] { return U(c.getEdgeIndex(e)) + " "; })
-        + "nodes " + q([&] { auto p = c.getNodes(e); return lab(p.first) + " " + lab(p.second) + " "; });
+        + "nodes " + q([&] { auto p = c.getNodes(e); return lab1(p.first) + " " + lab1(p.second) + " "; });
     }
     if (op == "o.qp") {
       NP a = N(k, lbl(t[2])), b = N(k, lbl(t[3]));
-      return "linking " + q([&] { return lab(c.getEdgeLinking(a, b)) + " "; });
+      return "linking " + q([&] { return lab1(c.getEdgeLinking(a, b)) + " "; });
+    }
+    if (op == "o.qid") {   // graph id -> object, const and non-const
+      unsigned id = (unsigned)toU(t[2]);
+      return "n " + lab1(c.getNodeFromGraphid(id)) + " " + lab1(o.getNodeFromGraphid(id)) + " e " + lab1(c.getEdgeFromGraphid(id)) + " " + lab1(o.getEdgeFromGraphid(id))
+        + " ns " + labs(c.getNodesFromGraphid(std::vector<unsigned>{id, id + 1, 0})) + "es " + labs(c.getEdgesFromGraphid(std::vector<unsigned>{id, id + 1, 0}));
+    }
+    if (op == "o.leavesFrom") {
+      NP a = N(k, lbl(t[2]));
+      return "l " + labs(c.getLeavesFromNode(a, (unsigned)toU(t[3])));
     }
     if (op == "o.qg") {
       std::string s;
@@ -265,15 +415,18 @@ struct M {
       s += "itn " + oiter(c.allNodesIterator()) + "/ " + oiter(o.allNodesIterator()) + "ite " + oiter(c.allEdgesIterator()) + "/ " + oiter(o.allEdgesIterator());
       s += "nidx " + q([&] { return list(c.getAllNodesIndexes()); }) + "eidx " + q([&] { return list(c.getAllEdgesIndexes()); });
       s += "lidx " + q([&] { return list(c.getAllLeavesIndexes()); }) + "iidx " + q([&] { return list(c.getAllInnerNodesIndexes()); });
+      s += "root " + lab1(c.getRoot()) + " ri " + q([&] { return U(c.getRootIndex()) + " "; });
       return s;
     }
     if (op == "o.qi") {
       unsigned i = (unsigned)toU(t[2]);
       std::string s;
-      s += "hn " + B(c.hasNode(i)) + " n " + q([&] { return lab(c.getNode(i)) + " "; });
-      s += "he " + B(c.hasEdge(i)) + " e " + q([&] { return lab(c.getEdge(i)) + " "; });
+      s += "hn " + B(c.hasNode(i)) + " n " + q([&] { return lab1(c.getNode(i)) + " "; });
+      s += "he " + B(c.hasEdge(i)) + " e " + q([&] { return lab1(c.getEdge(i)) + " "; });
       s += "oni " + q([&] { return list(c.getOutgoingNeighbors(i)); }) + "ini " + q([&] { return list(c.getIncomingNeighbors(i)); });
       s += "oei " + q([&] { return list(c.getOutgoingEdges(i)); }) + "lfi " + q([&] { return B(c.isLeaf(i)) + " "; });
+      s += "nbi " + q([&] { return list(c.getNeighbors(i)); }) + "edi " + q([&] { return list(c.getEdges(i)); });
+      s += "iei " + q([&] { return list(c.getIncomingEdges(i)); });
       return s;
     }
     return "bad-op";
